@@ -87,6 +87,7 @@ def run(ctx):
         req = f"calc_peak|{w_rats(a)}"
         ctx.corr('calc_peak', req, call_impl(im.calc_peak, a),
                  lambda outs, val: cmp_exact([val], p_rats(outs[0])), inputs={'a': a})
+        object_history(ctx, a, dt)
         alpha = rng.choice([-3.0, -1.0, 0.5, 2.0])
         p0 = im.calc_peak(a)
         ctx.oracle('calc_peak(-x) == calc_peak(x)', fr(im.calc_peak(-a)) == fr(p0), inputs={'a': a})
@@ -139,3 +140,49 @@ def spec_oracles(ctx, a, dt, trap, val, exact):
     name = 'trapezoid' if trap else 'rectangle'
     ctx.oracle(f'{name} increments of velocity', ok_v, inputs, detail={'first_bad': bad})
     ctx.oracle(f'{name} increments of displacement', ok_d, inputs, detail={'first_bad': bad})
+
+
+def object_history(ctx, a, dt):
+    """object-level access after a history on the same AccSignal: velocity/displacement/peaks must always be those of the CURRENT
+    record with the requested integration rule (reads before a mutation, explicit trap=False after a trap=True read, ...)."""
+    import eqsig
+    from eqsig import displacements as sd
+    rng = ctx.rng
+    asig = eqsig.AccSignal(a.copy(), dt)
+    cur = a.copy()
+    trap = True
+    hist = []
+    for _ in range(rng.randint(2, 5)):
+        op = rng.choice(['read', 'peaks', 'add_constant', 'reset_values', 'gen(trap=False)', 'gen(trap=True)', 'scale'])
+        if op == 'add_constant':
+            c = rng.choice([0.5, -1.0, 2.0])
+            asig.add_constant(c)
+            cur = cur + c
+            trap = True
+        elif op == 'reset_values':
+            cur = cur[::-1].copy() * 2.0
+            asig.reset_values(cur.copy())
+            trap = True
+        elif op == 'scale':
+            cur = cur * -0.5
+            asig.reset_values(cur.copy())
+            trap = True
+        elif op == 'gen(trap=False)':
+            asig.generate_displacement_and_velocity_series(trap=False)
+            trap = False
+        elif op == 'gen(trap=True)':
+            asig.generate_displacement_and_velocity_series(trap=True)
+            trap = True
+        hist.append(op)
+        v, d = sd.calc_velo_and_disp_from_accel_arr(cur, dt, trap=trap)
+        inputs = {'a': a, 'dt': dt, 'history': list(hist)}
+        if op in ('read', 'gen(trap=False)', 'gen(trap=True)') or rng.random() < 0.5:
+            ctx.oracle('object-level velocity/displacement == array-level integral of the current record (requested rule) after any history',
+                       np.array_equal(asig.velocity, v) and np.array_equal(asig.displacement, d), inputs, facts={'history': list(hist)})
+        if op == 'peaks' or rng.random() < 0.5:
+            if trap:   # the peak memo is documented to follow the lazily generated (trapezoid) series
+                ok = fr(asig.pga) == fr(np.max(np.abs(cur))) and fr(asig.pgv) == fr(np.max(np.abs(v))) and fr(asig.pgd) == fr(np.max(np.abs(d)))
+                ctx.oracle('pga/pgv/pgd == max|series| of the current record after any history', ok, inputs, facts={'history': list(hist)})
+            else:
+                ctx.oracle('pga == max|record| after any history', fr(asig.pga) == fr(np.max(np.abs(cur))), inputs)
+    ctx.hist('object-history')
